@@ -256,16 +256,24 @@ class ASTXpath:
         can be found in the LICENSE.txt file in the project root.
         """
         # Using dict, because set is not ordered
+        dummy_root = _DUMMY_XPATH_ROOT(root)
         work: dict[_NodeTraversalInfo | NodeTraversalInfo, None] = {
-            _NodeTraversalInfo(_DUMMY_XPATH_ROOT(root), None, None, None): None
+            _NodeTraversalInfo(dummy_root, None, None, None): None
         }
+
+        def _as_root(info: NodeTraversalInfo) -> _NodeTraversalInfo | NodeTraversalInfo:
+            # The real root is not stored in any field: hide the synthetic wrapper
+            # so that field/index constraints never match the root (same as in `match`)
+            if info.parent is dummy_root:
+                return _NodeTraversalInfo(info.node, None, None, None)
+            return info
 
         for el in self._elements:
             new_work: dict[_NodeTraversalInfo | NodeTraversalInfo, None] = {}
 
             for n_info in work:
                 if el.anywhere:
-                    for c_info in n_info.node.dfs():
+                    for c_info in map(_as_root, n_info.node.dfs()):
                         if _match_node_element(c_info, el):
                             # Insert into our "ordered set" only if not already in there
                             # this is to prefer first insertion order
@@ -273,7 +281,7 @@ class ASTXpath:
                                 new_work[c_info] = None
                 else:
                     for c, f, i in n_info.node.get_child_nodes_with_field():
-                        c_info = NodeTraversalInfo(c, n_info.node, f, i)
+                        c_info = _as_root(NodeTraversalInfo(c, n_info.node, f, i))
                         if _match_node_element(c_info, el):
                             if c_info not in new_work:
                                 new_work[c_info] = None
